@@ -99,7 +99,8 @@ class AbsPDF:
         return self.vm.trainable_variables
 
     def cached_available(self):
-        return True
+        # masked values are read at trace time and would be baked into the graph
+        return not self.vm.mask_vars
 
     def __call__(self, data, cached=False):
         if isinstance(data, LazyCall):
@@ -176,7 +177,9 @@ class BaseAmplitudeModel(AbsPDF):
         return self.decay_group.chains_particle()
 
     def cached_available(self):
-        return not self.decay_group.not_full
+        if any(getattr(i, "mask_factor", False) for i in self.decay_group):
+            return False  # temp_total_gls_one is active
+        return not self.decay_group.not_full and super().cached_available()
 
     def pdf(self, data):
         ret = self.decay_group.sum_amp(data)
